@@ -88,6 +88,35 @@ def pool_suite(name, quick, thorough):
     }
 
 
+SYS_HEADER = "From GK Require Import SysCheck.\nOpen Scope string_scope.\nOpen Scope list_scope.\nOpen Scope Z_scope."
+
+
+def sys_suite(name, pred, quick, thorough, length=60, extra=None):
+    return {
+        "name": name, "cmd": ["sys", "--len", str(length)] + (extra or []), "header": SYS_HEADER, "hist_type": "list slabel",
+        "eval": "Definition M := Eval vm_compute in sys_mismatches scfg_current hcfg_current cases 0.\nPrint M.\n"
+                "Definition V := Eval vm_compute in trace_violations %s cases 0.\nPrint V." % pred,
+        "diag": "Eval vm_compute in sys_expect scfg_current hcfg_current (nth {k} cases []) {i}.",
+        "show": "Eval vm_compute in (nth {k} cases []).",
+        "sig": "{sig} (nth {k} cases [])", "timeout": 1200,
+        "quick": quick, "thorough": thorough,
+    }
+
+
+def hook_suite(name, quick, thorough, length=40, extra=None):
+    return {
+        "name": name, "cmd": ["hook", "--len", str(length)] + (extra or []),
+        "header": "From GK Require Import SysCheck.\nOpen Scope string_scope.\nOpen Scope list_scope.\nOpen Scope Z_scope.",
+        "hist_type": "hhist",
+        "eval": "Definition M := Eval vm_compute in hook_mismatches hcfg_current cases 0.\nPrint M.\n"
+                "Definition V := Eval vm_compute in hook_violations cases 0.\nPrint V.",
+        "diag": "Eval vm_compute in hook_expect hcfg_current (nth {k} cases []) {i}.",
+        "show": "Eval vm_compute in map (fun x => fst (fst x)) (nth {k} cases []).",
+        "sig": "false",
+        "quick": quick, "thorough": thorough,
+    }
+
+
 SUITES = {
     "C01": {"suites": [
         repo_suite("c01-inmem", "inmem", "c01", "p_C01", {"n": 25, "shards": 8}, {"n": 200, "shards": 16, }),
@@ -113,6 +142,15 @@ SUITES = {
         repo_suite("c19-inmem", "inmem", "c01", "p_C19", {"n": 20, "shards": 6}, {"n": 150, "shards": 16}, extra=["--scribble"]),
         repo_suite("c19-ent", "ent", "c13", "p_C19", {"n": 15, "shards": 6}, {"n": 100, "shards": 16}, extra=["--scribble"]),
         cron_suite("c19-cron", "c15", "false true", "false true", {"n": 10, "shards": 4}, {"n": 60, "shards": 16}, extra=["--scribble"]),
+    ]},
+    "C03": {"suites": [sys_suite("c03-sys", "c03_ok", {"n": 25, "shards": 10}, {"n": 200, "shards": 16})]},
+    "C04": {"suites": [sys_suite("c04-sys", "c04_ok", {"n": 25, "shards": 10}, {"n": 200, "shards": 16})]},
+    "C05": {"suites": [sys_suite("c05-sys", "c05_ok", {"n": 25, "shards": 10}, {"n": 200, "shards": 16})]},
+    "C06": {"suites": [sys_suite("c06-sys", "c06_ok", {"n": 25, "shards": 10}, {"n": 200, "shards": 16})]},
+    "C20": {"suites": [sys_suite("c20-sys", "c20_ok", {"n": 25, "shards": 10}, {"n": 200, "shards": 16}, extra=["--faults"])]},
+    "C07": {"suites": [
+        hook_suite("c07-hook", {"n": 40, "shards": 8}, {"n": 400, "shards": 16}),
+        hook_suite("c07-hook-faults", {"n": 30, "shards": 4}, {"n": 300, "shards": 16}, extra=["--faults"]),
     ]},
     "C08": {"suites": [
         pool_suite("c08-pool", {"n": 40, "shards": 8}, {"n": 400, "shards": 16}),
